@@ -54,9 +54,10 @@ SPEC = {
     'lifting over several scopes (a body Module holding bound sub-Modules passed in from outside the lift: get_module_scopes / set_module_scopes / _dedup_scopes) is outside the single-scope Lean model; it is checked against the property oracle only (explicit per-step application of the unlifted body on the same variables)',
   ],
   'model_partial': [
-    'remat_scan_eq_nested_loops_partial: proved (a) lift.remat_scan = the NEST of explicit loops, one per entry of lengths, each the explicit loop of scan_eq_loop, and '
-    '(b) nested_loops_eq_flat_loop: a nest of threaded loops = ONE flat loop of prod(lengths) iterations in row-major multi-index order (carry threading, outputs keyed by multi-index). '
-    'Not proved: the glue between (a) and (b) - that the scope plumbing between two levels (merge sliced groups, regroup by the same filters, publish and re-filter; dict algebra up to key order; nested take/stack = take/stack at the multi-index) is the identity and that the per-level broadcast pass is idempotent. Tied by the correspondence run (flat-loop oracle) only.',
+    'remat_scan_eq_nested_loops_partial: proved (a) lift.remat_scan = the NEST of explicit loops, one per entry of lengths; (b) nested_loops_eq_flat_loop: a nest of threaded loops = ONE flat loop of prod(lengths) iterations in row-major multi-index order; '
+    '(c) remat_scan_eq_flat_loop_carry_only: (a)+(b) glued into ONE flat loop for configurations that lift no axis and no broadcast collection (variable_axes={}, variable_broadcast=False; any carry filter, split_rngs, lengths>0, body), with the scope plumbing between levels proved to be the identity; '
+    '(d) the plumbing identities in general form: regroup_after_merge_identity, publish_refilter_identity (structure-preserving groups), nested_stack_slice. '
+    'Not proved: the general remat_scan_eq_flat_loop with AXIS collections (needs dict equality up to key order or the hypothesis that the body keeps the variable names of every axis collection; In/Out-restricted axes) and with BROADCAST collections (needs the hypothesis that the per-level broadcast pass is idempotent: the body\'s broadcast outputs on an initialised scope are that scope\'s broadcast collections). Those cases are tied by the correspondence run (flat-loop oracle) only.',
     'scan_eq_loop / vmap_eq_map compare success and result (scan_eq_loop for both values of check_constancy_invariants); the error side is proved, for check_constancy_invariants=True, for the errors flax itself raises (scan_error_classes, scan_length_errors_iff, scan_broadcast_dependency_iff, unmapped_output_never, vmap_axis_size_inference, under the hypothesis that the body raises only its own errors). '
     'Which FOREIGN class is raised (JAX: axis out of range / transposition / lax.scan or jax.vmap size mismatch or nothing to scan / carry structure / unbatched output expected; the body: ModifyScopeVariableError, ScopeCollectionNotFound, InvalidRngError ...) is tied by the correspondence run only.',
   ],
